@@ -1263,7 +1263,10 @@ class Tensor(object):
                     if batch_dim_processed:
                         core = torch.cat(
                             [
-                                torch.eye(self.ranks_tt[counter - 1].item())[None, ...]
+                                torch.eye(
+                                    self.ranks_tt[counter - 1].item(),
+                                    dtype=self.cores[0].dtype,
+                                )[None, ...]
                                 for _ in range(batch_size)
                             ]
                         )
@@ -1275,7 +1278,9 @@ class Tensor(object):
                 else:
                     insert_core(
                         factors,
-                        torch.eye(self.ranks_tt[counter].item())[:, None, :],
+                        torch.eye(
+                            self.ranks_tt[counter].item(), dtype=self.cores[0].dtype
+                        )[:, None, :],
                         key=slice(None),
                         U=None,
                     )
@@ -1500,18 +1505,18 @@ class Tensor(object):
             if scalar:
                 if self.batch:
                     if self.cores[i].dim() == 4:
-                        add_core = torch.zeros(self.shape[0], 1, self.shape[i + 1], 1)
+                        add_core = torch.zeros(self.shape[0], 1, self.shape[i + 1], 1, dtype=self.cores[i].dtype)
                     else:
-                        add_core = torch.zeros(self.shape[0], self.shape[i + 1], 1)
+                        add_core = torch.zeros(self.shape[0], self.shape[i + 1], 1, dtype=self.cores[i].dtype)
 
                     add_core[key[0], ..., key[i + 1], :] += 1
                     if i == 0:
                         add_core *= value
                 else:
                     if self.cores[i].dim() == 3:
-                        add_core = torch.zeros(1, self.shape[i], 1)
+                        add_core = torch.zeros(1, self.shape[i], 1, dtype=self.cores[i].dtype)
                     else:
-                        add_core = torch.zeros(self.shape[i], 1)
+                        add_core = torch.zeros(self.shape[i], 1, dtype=self.cores[i].dtype)
 
                     add_core[..., key[i], :] += 1
                     if i == 0:
@@ -1537,14 +1542,12 @@ class Tensor(object):
                             self.cores[i].shape[0],
                             value.cores[i].shape[1],
                             self.shape[i + 1],
-                            value.cores[i].shape[3],
-                        )
+                            value.cores[i].shape[3], dtype=self.cores[i].dtype)
                     else:
                         add_core = torch.zeros(
                             self.cores[i].shape[0],
                             self.shape[i + 1],
-                            value.cores[i].shape[2],
-                        )
+                            value.cores[i].shape[2], dtype=self.cores[i].dtype)
 
                     if isinstance(key[i + 1], int):
                         add_core[key[0], ..., key[i + 1], :] += value.cores[i][
@@ -1563,10 +1566,9 @@ class Tensor(object):
                         add_core = torch.zeros(
                             value.cores[i].shape[0],
                             self.shape[i],
-                            value.cores[i].shape[2],
-                        )
+                            value.cores[i].shape[2], dtype=self.cores[i].dtype)
                     else:
-                        add_core = torch.zeros(self.shape[i], value.cores[i].shape[1])
+                        add_core = torch.zeros(self.shape[i], value.cores[i].shape[1], dtype=self.cores[i].dtype)
 
                     add_core[..., key[i], :] += value.cores[i]
             add_cores.append(add_core)
